@@ -10,6 +10,18 @@ BASELINE_OFF = ("cd /repo && /venv/bin/python -m pytest -ra -q -p no:cacheprovid
 
 # id -> (technique, engine, level text, level note, design section)
 CHECKS = {
+    "C01": ("property-based testing (Hypothesis): generated (type, value, options, entry point) against a type-directed conformance predicate with independent constraint semantics",
+            "hypothesis",
+            "Exploration: thousands of generated type declarations (origins x constraints x nesting x combinators) pushed through 7 "
+            "public entry points with type-directed and hostile values under the non-waiving options; every accepted result is "
+            "judged by an independent recursive conformance predicate.",
+            "Trusted: vf/tspec.py:conforms and vf/constraints.py (documented constraint semantics); Python isinstance.", "3/C01"),
+    "C04": ("property-based testing (Hypothesis) with hostile values; oracle = exception class + deterministic line-event budget (sys.monitoring) + body-entered flag",
+            "hypothesis",
+            "Exploration: hostile Python values against generated constrained/logical types through field, parameter, return and "
+            "direct-call entries under arbitrary options; any non-ParseError exception or exhausted line budget is a violation, "
+            "bucketed by (exception type, innermost utype frame).",
+            "Trusted: sys.monitoring LINE accounting as termination proxy (budget 2e5+2e3*size, re-run at 50x before calling it a hang).", "3/C04"),
     "C16": ("model-based stateful PBT (Hypothesis RuleBasedStateMachine) of register/use histories against a cache-free reference model",
             "hypothesis",
             "Exploration: random histories of registrations and conversions over a 6-class hierarchy on three registries "
